@@ -10,6 +10,7 @@ use serde_json::{json, Value};
 
 pub mod e2;
 pub mod vclock;
+pub mod imdrv;
 pub mod kv;
 pub mod rng;
 pub mod sim;
